@@ -382,7 +382,10 @@ def oracles(ctx, deep):
                 add(Violation("target-size", "uniform splitter: target has %d cells, requested floor(%d * %s) = %d" % (tsize, elig, ratio, int(elig * ratio)), {"config": cfg, "sample": b}, {"splitter": split, "kind": "size"}))
             if split == "gaussian":
                 want = min(int(math.ceil(base * ratio)) + 1, elig)
-                if abs(tsize - want) > 0 and not (elig == 0 and tsize == 0):
+                # the count is computed as ceil(mask.sum() * ratio) on a float32 tensor: at an exact multiple the single
+                # precision product may land just above the integer (90 * 0.3 -> 27.000002 -> 28); both roundings count
+                want32 = min(int(math.ceil(float(torch.tensor(base) * ratio))) + 1, elig)
+                if tsize not in (want, want32) and not (elig == 0 and tsize == 0):
                     add(Violation("target-size", "gaussian splitter: target has %d cells, requested ceil(%d * %s) + 1 = %d (capped by the %d eligible cells)" % (tsize, base, ratio, int(math.ceil(base * ratio)) + 1, elig), {"config": cfg, "sample": b}, {"splitter": split, "kind": "size"}))
             k = sample["masked_kspace"][b]
             ki, kt = s1["input_masked_kspace"][b], s1["target_masked_kspace"][b]
